@@ -20,4 +20,5 @@ func init() {
 	register("C07", "exploration", C07)
 	register("C15", "exploration", C15)
 	register("C14", "fault_enumeration", C14)
+	register("C18", "exploration", C18)
 }
